@@ -101,10 +101,14 @@ StmtVals(B, s) ==
          \o FlatSeq([i \in DOMAIN s.values |-> ExprVals(B, s.values[i].e)])
          \o (IF B # "mysql" THEN FlatSeq([i \in DOMAIN s.from |-> TableVals(B, s.from[i])]) ELSE <<>>)
          \o (IF myJoin THEN <<>> ELSE HolderVals(B, s.where))
-         \o OrdersVals(B, s.orders) \o (IF IsNone(s.limit) THEN <<>> ELSE NumV(s.limit.n)) \o ReturningVals(B, s.returning)
+         \o (IF B = "sqlite" THEN ReturningVals(B, s.returning) ELSE <<>>)          \* SQLite: RETURNING precedes ORDER BY / LIMIT
+         \o OrdersVals(B, s.orders) \o (IF IsNone(s.limit) THEN <<>> ELSE NumV(s.limit.n))
+         \o (IF B = "sqlite" THEN <<>> ELSE ReturningVals(B, s.returning))
     [] s.kind = "delete" ->
-         WithVals(B, s.with) \o HolderVals(B, s.where) \o OrdersVals(B, s.orders)
-         \o (IF IsNone(s.limit) THEN <<>> ELSE NumV(s.limit.n)) \o ReturningVals(B, s.returning)
+         WithVals(B, s.with) \o HolderVals(B, s.where)
+         \o (IF B = "sqlite" THEN ReturningVals(B, s.returning) ELSE <<>>)
+         \o OrdersVals(B, s.orders) \o (IF IsNone(s.limit) THEN <<>> ELSE NumV(s.limit.n))
+         \o (IF B = "sqlite" THEN <<>> ELSE ReturningVals(B, s.returning))
     [] s.kind = "withq" -> WithVals(B, s.w) \o StmtVals(B, s.q)
 BoundOrder(B, s) == StmtVals(B, s)
 
